@@ -456,3 +456,50 @@ func init() {
 		}
 	}
 }
+
+func init() {
+	debugHooks["optscan"] = func(p *ir.Program) {
+		mo := p.NamedType("pkg/packet/bgp", "MarshallingOption")
+		isOptVariadic := func(sig *types.Signature) bool {
+			if !sig.Variadic() {
+				return false
+			}
+			last := sig.Params().At(sig.Params().Len() - 1).Type()
+			sl, ok := last.(*types.Slice)
+			if !ok {
+				return false
+			}
+			return ir.NamedOf(ir.Deref(sl.Elem())) == mo
+		}
+		for _, fn := range p.Funcs {
+			if !p.InModule(fn) || fn.Blocks == nil {
+				continue
+			}
+			var with, without []ssa.CallInstruction
+			for _, b := range fn.Blocks {
+				for _, in := range b.Instrs {
+					ci, ok := in.(ssa.CallInstruction)
+					if !ok {
+						continue
+					}
+					sig := ci.Common().Signature()
+					if sig == nil || !isOptVariadic(sig) {
+						continue
+					}
+					args := ci.Common().Args
+					last := args[len(args)-1]
+					if k, ok := last.(*ssa.Const); ok && k.IsNil() {
+						without = append(without, ci)
+					} else {
+						with = append(with, ci)
+					}
+				}
+			}
+			if len(with) > 0 && len(without) > 0 {
+				for _, w := range without {
+					fmt.Printf("MIXED %s: %s without options (%d calls with)\n", ir.FuncKey(fn), p.InstrPos(w), len(with))
+				}
+			}
+		}
+	}
+}
